@@ -44,20 +44,23 @@ Proof.
 Qed.
 
 (** find_operator returns the byte offset of an operator character of the text *)
-Lemma find_op_spec ops : forall s off depth last pos,
-  find_op ops s off depth last = Some pos ->
+Lemma find_op_spec ops : forall s off depth prev quote last pos,
+  find_op ws ops s off depth prev quote last = Some pos ->
   last = Some pos \/
   exists pre c post, s = pre ++ c :: post /\ pos = off + blen pre /\ memc c ops = true.
 Proof.
-  induction s as [|c s IH]; intros off depth last pos H; cbn [find_op] in H; [left; exact H|].
-  assert (Shift : forall d l, find_op ops s (off + utf8_len c) d l = Some pos -> l = Some pos \/
+  induction s as [|c s IH]; intros off depth prev quote last pos H; cbn [find_op] in H; [left; exact H|].
+  assert (Shift : forall d p q l, find_op ws ops s (off + utf8_len c) d p q l = Some pos -> l = Some pos \/
             exists pre c0 post, c :: s = pre ++ c0 :: post /\ pos = off + blen pre /\ memc c0 ops = true).
-  { intros d l Hf. destruct (IH _ _ _ _ Hf) as [Hl|[pre [c0 [post [E1 [E2 E3]]]]]]; [left; exact Hl|].
+  { intros d p q l Hf. destruct (IH _ _ _ _ _ _ Hf) as [Hl|[pre [c0 [post [E1 [E2 E3]]]]]]; [left; exact Hl|].
     right. exists (c :: pre), c0, post. cbn [app blen]. rewrite E1. repeat split; [lia|exact E3]. }
+  destruct quote as [q|]; [apply Shift in H; exact H|].
+  destruct ((c =? 34) || (c =? 39)); [apply Shift in H; exact H|].
   destruct (c =? 40); [apply Shift in H; exact H|].
   destruct (c =? 41); [apply Shift in H; exact H|].
   destruct ((depth =? 0) && memc c ops) eqn:E; [|apply Shift in H; exact H].
   apply Shift in H. destruct H as [H|H]; [|right; exact H].
+  match type of H with (if ?b then _ else _) = _ => destruct b end; [left; exact H|].
   inversion H; subst. right. exists [], c, s. cbn. apply andb_true_iff in E. repeat split; [lia|tauto].
 Qed.
 
@@ -73,11 +76,11 @@ Proof. intros H. unfold utf8_len. destruct (c <? 128) eqn:E; [reflexivity|apply 
 
 (** the three slices around the operator always succeed and yield strictly shorter operands *)
 Lemma split_around ops e pos :
-  ascii_ops ops -> find_op ops e 0 0 None = Some pos ->
+  ascii_ops ops -> find_operator ws ops e = Some pos ->
   exists l c r, slice e 0 pos = Some l /\ slice e pos (pos + 1) = Some [c] /\ slice e (pos + 1) (blen e) = Some r
                 /\ (length l < length e)%nat /\ (length r < length e)%nat.
 Proof.
-  intros Ha H. destruct (find_op_spec ops e 0 0 None pos H) as [Hn|[pre [c [post [E1 [E2 E3]]]]]]; [discriminate|].
+  intros Ha H. destruct (find_op_spec ops e 0 0 None None None pos H) as [Hn|[pre [c [post [E1 [E2 E3]]]]]]; [discriminate|].
   pose proof (utf8_len_ascii c (Ha c E3)) as Hc. exists pre, c, post. subst e pos. cbn [Z.add].
   repeat split.
   - pose proof (slice_app [] pre (c :: post)) as S. cbn [app blen] in S. exact S.
@@ -93,24 +96,32 @@ Proof.
   - rewrite app_length. cbn. lia.
 Qed.
 
-(** the string-literal slice succeeds once both ends are known to be the (one-byte) quote *)
-Lemma quoted_slice e q :
-  q < 128 -> quoted e q = true -> 2 <= blen e -> slice e 1 (blen e - 1) <> None.
+(** the slice that drops the first and last byte succeeds once both ends are known to be one-byte
+    characters (quotes, or an opening and a closing parenthesis), and what is inside is shorter *)
+Lemma enclosed_slice e a b :
+  a < 128 -> b < 128 -> enclosed e a b = true -> 2 <= blen e ->
+  exists inner, slice e 1 (blen e - 1) = Some inner /\ (length inner < length e)%nat.
 Proof.
-  intros Hq Hqu Hlen. unfold quoted in Hqu.
+  intros Ha Hb Hqu Hlen. unfold enclosed in Hqu.
   destruct e as [|c e']; [discriminate|].
   destruct (rev (c :: e')) as [|d rest] eqn:R; [discriminate|].
   apply andb_true_iff in Hqu. destruct Hqu as [Hc Hd]. apply Z.eqb_eq in Hc, Hd. subst c d.
-  assert (Hrev : q :: e' = rev rest ++ [q]) by (rewrite <- (rev_involutive (q :: e')), R; reflexivity).
+  assert (Hrev : a :: e' = rev rest ++ [b]) by (rewrite <- (rev_involutive (a :: e')), R; reflexivity).
   destruct (rev rest) as [|x mid] eqn:Rr.
   - (* a single character: blen = 1 *)
-    cbn in Hrev. inversion Hrev; subst. cbn [blen] in Hlen. rewrite (utf8_len_ascii q Hq) in Hlen. lia.
+    cbn in Hrev. inversion Hrev; subst. cbn [blen] in Hlen. rewrite (utf8_len_ascii b Hb) in Hlen. lia.
   - cbn [app] in Hrev. injection Hrev as Hx He'. subst x e'.
-    pose proof (slice_app [q] mid [q]) as S. cbn [blen app] in S. rewrite (utf8_len_ascii q Hq) in S.
+    pose proof (slice_app [a] mid [b]) as S. cbn [blen app] in S. rewrite (utf8_len_ascii a Ha) in S.
     replace (1 + 0) with 1 in S by lia.
-    replace (blen (q :: mid ++ [q]) - 1) with (1 + blen mid).
-    + rewrite S. discriminate.
-    + cbn [blen]. rewrite blen_app. cbn [blen]. rewrite (utf8_len_ascii q Hq). lia.
+    replace (blen (a :: mid ++ [b]) - 1) with (1 + blen mid).
+    + exists mid. split; [exact S|]. cbn [length]. rewrite app_length. cbn. lia.
+    + cbn [blen]. rewrite blen_app. cbn [blen]. rewrite (utf8_len_ascii a Ha), (utf8_len_ascii b Hb). lia.
+Qed.
+
+Lemma quoted_slice e q :
+  q < 128 -> quoted e q = true -> 2 <= blen e -> slice e 1 (blen e - 1) <> None.
+Proof.
+  intros Hq Hqu Hlen. destruct (enclosed_slice e q q Hq Hq Hqu Hlen) as [inner [S _]]. rewrite S. discriminate.
 Qed.
 
 Lemma leaf_no_panic e : leaf is_num e <> RPanic /\ leaf is_num e <> ROutOfFuel.
@@ -133,7 +144,7 @@ Theorem shape_no_panic : forall fuel s, (length s < fuel)%nat ->
 Proof.
   induction fuel as [|f IH]; intros s Hlen; [lia|]. cbn [shape].
   set (e := trim ws s). assert (He : (length e <= length s)%nat) by apply trim_length.
-  assert (Node : forall ops pos, ascii_ops ops -> find_op ops e 0 0 None = Some pos ->
+  assert (Node : forall ops pos, ascii_ops ops -> find_operator ws ops e = Some pos ->
             match slice e 0 pos, slice e pos (pos + 1), slice e (pos + 1) (blen e) with
             | Some l, Some _, Some r => match shape ws is_num f l with
                                          | RValue => match shape ws is_num f r with RValue => RValue | x => x end
@@ -149,9 +160,11 @@ Proof.
     destruct (IH l ltac:(lia)) as [A1 A2]. destruct (IH r ltac:(lia)) as [B1 B2].
     destruct (shape ws is_num f l); destruct (shape ws is_num f r); split; try discriminate;
       exfalso; first [apply A1; reflexivity|apply A2; reflexivity|apply B1; reflexivity|apply B2; reflexivity]. }
-  destruct (find_op plus_minus e 0 0 None) as [pos|] eqn:F1; [apply (Node plus_minus pos ascii_plus_minus F1)|].
-  destruct (find_op mul_div_mod e 0 0 None) as [pos|] eqn:F2; [apply (Node mul_div_mod pos ascii_mul_div_mod F2)|].
-  apply leaf_no_panic.
+  destruct (find_operator ws plus_minus e) as [pos|] eqn:F1; [apply (Node plus_minus pos ascii_plus_minus F1)|].
+  destruct (find_operator ws mul_div_mod e) as [pos|] eqn:F2; [apply (Node mul_div_mod pos ascii_mul_div_mod F2)|].
+  destruct ((2 <=? blen e) && enclosed e 40 41) eqn:G; [|apply leaf_no_panic].
+  apply andb_true_iff in G. destruct G as [G1 G2]. apply Z.leb_le in G1.
+  destruct (enclosed_slice e 40 41 ltac:(lia) ltac:(lia) G2 G1) as [inner [S L]]. rewrite S. apply IH. lia.
 Qed.
 
 Corollary shape_of_no_panic s : shape_of ws is_num s <> RPanic /\ shape_of ws is_num s <> ROutOfFuel.
@@ -164,25 +177,30 @@ Fixpoint depth (fuel : nat) (e0 : str) : nat :=
   | S f =>
       let e := trim ws e0 in
       let node (ops : list Z) (k : unit -> nat) : nat :=
-        match find_op ops e 0 0 None with
+        match find_operator ws ops e with
         | Some pos => match slice e 0 pos, slice e (pos + 1) (blen e) with
                       | Some l, Some r => S (Nat.max (depth f l) (depth f r))
                       | _, _ => 1%nat end
         | None => k tt end in
-      node plus_minus (fun _ => node mul_div_mod (fun _ => 1%nat))
+      node plus_minus (fun _ => node mul_div_mod (fun _ =>
+        if (2 <=? blen e) && enclosed e 40 41 then
+          match slice e 1 (blen e - 1) with Some inner => S (depth f inner) | None => 1%nat end
+        else 1%nat))
   end.
 
 Theorem depth_le_length : forall fuel s, (depth fuel s <= S (length s))%nat.
 Proof.
   induction fuel as [|f IH]; intros s; cbn [depth]; [lia|].
   set (e := trim ws s). assert (He : (length e <= length s)%nat) by apply trim_length.
-  assert (Node : forall ops pos, ascii_ops ops -> find_op ops e 0 0 None = Some pos ->
+  assert (Node : forall ops pos, ascii_ops ops -> find_operator ws ops e = Some pos ->
      (match slice e 0 pos, slice e (pos + 1) (blen e) with
       | Some l, Some r => S (Nat.max (depth f l) (depth f r)) | _, _ => 1%nat end <= S (length s))%nat).
   { intros ops pos Ha Hf. destruct (split_around ops e pos Ha Hf) as [l [c [r [S1 [S2 [S3 [L1 L2]]]]]]].
     rewrite S1, S3. pose proof (IH l). pose proof (IH r). lia. }
-  destruct (find_op plus_minus e 0 0 None) as [pos|] eqn:F1; [apply (Node plus_minus pos ascii_plus_minus F1)|].
-  destruct (find_op mul_div_mod e 0 0 None) as [pos|] eqn:F2; [apply (Node mul_div_mod pos ascii_mul_div_mod F2)|].
-  lia.
+  destruct (find_operator ws plus_minus e) as [pos|] eqn:F1; [apply (Node plus_minus pos ascii_plus_minus F1)|].
+  destruct (find_operator ws mul_div_mod e) as [pos|] eqn:F2; [apply (Node mul_div_mod pos ascii_mul_div_mod F2)|].
+  destruct ((2 <=? blen e) && enclosed e 40 41) eqn:G; [|lia].
+  apply andb_true_iff in G. destruct G as [G1 G2]. apply Z.leb_le in G1.
+  destruct (enclosed_slice e 40 41 ltac:(lia) ltac:(lia) G2 G1) as [inner [S0 L]]. rewrite S0. pose proof (IH inner). lia.
 Qed.
 End Proofs.
